@@ -36,6 +36,8 @@ def run(chk):
            'is the AND of all constraints, FROM a cross join; every argument '
            'of a body literal is unified with its column', min_instances=12)
   merge_and_product(chk, 'C01-R5')
+  from rules.c11 import functional_calls
+  functional_calls(chk, 'C01-R5')
 
   chk.rule('C01-R6', 'composability: the SQL of an infix operator and of a '
            'combine is one parenthesised group on every path out of '
@@ -172,7 +174,18 @@ def merge_and_product(chk, rid):
   cat = [x for x in walk_local(dj.node) if isinstance(x, ast.AugAssign) and isinstance(x.op, ast.Add)] + \
       [c for c in walk_local(dj.node) if isinstance(c, ast.Call) and call_tail(c) == 'extend']
   inloop = [x for x in walk_local(dj.node) if isinstance(x, ast.For)]
-  chk.ob(rid, bool(cat) and bool(inloop), None,
+  whole = True
+  for l in inloop:
+    for y in ast.walk(l):
+      val = None
+      if isinstance(y, ast.AugAssign) and isinstance(y.op, ast.Add):
+        val = y.value
+      elif isinstance(y, ast.Call) and call_tail(y) == 'extend' and y.args:
+        val = y.args[0]
+      if val is not None and not (isinstance(val, ast.Name) and isinstance(l.target, ast.Name)
+                                  and val.id == l.target.id):
+        whole = False
+  chk.ob(rid, bool(cat) and bool(inloop) and whole, None,
          'disjunction of DNFs is the concatenation of the alternatives',
          'alternatives of a disjunction are not all kept', fi=dj)
   r2r = repo.func('parse.DisjunctiveNormalForm.RuleToRules')
